@@ -98,7 +98,6 @@ def op_table(rng, da):
 
 ORDERS = {"time_first": ("time", "y", "x"), "time_last": ("y", "x", "time"), "time_middle": ("y", "time", "x"),
           "time_first_xy": ("time", "x", "y"), "time_last_xy": ("x", "y", "time")}  # x before y: auxiliary rasters must be matched by name
-ZONAL_ONLY_TIME_FIRST = {"zonal_mean", "zonal_mean_lazy_zones"}
 
 
 def chunkings(ny, nx):
@@ -176,13 +175,14 @@ def shard_sweep(spec, R):
     rng = np.random.default_rng([spec["seed"], 12, 1, spec["sub"]])
     delayer = Delayer(spec["seed"] * 1000 + spec["sub"])
     delayer.install()
-    da = make_cube(rng)
+    da = make_cube(rng, kind=spec.get("cube_dtype", "int16"))
+    R.count(f"sweep_cube_{spec.get('cube_dtype', 'int16')}")
     ops = op_table(rng, da)
     names = [n for n in ops if n in spec["ops"]]
     completion_orders = {}
     for name in names:
         f = ops[name]
-        orders = ["time_first"] if name in ZONAL_ONLY_TIME_FIRST else list(ORDERS)
+        orders = list(ORDERS)
         eager = {}
         for o in orders:
             d0 = da.transpose(*ORDERS[o])
@@ -515,12 +515,24 @@ LAZY_KERNELS = ["ws2dgu", "ws2dpgu", "ws2doptv", "ws2doptvp", "ws2doptvplc", "ws
                 "mean_grp", "rolling_sum", "lroo", "tinterpolate", "autocorr", "autocorr_tyx", "do_mean", "ws2doptvplc_tyx"]
 
 
+OPS_BY_DTYPE = {
+    "float64": ["whits_s", "whits_sg_p", "whitsvc", "whitsvc_p", "whitswcv", "whitswcv_p", "spi", "spi_f32", "zonal_mean", "zonal_mean_lazy_zones"],
+    "float32": ["whits_s", "whitsvc", "whitswcv_p", "spi", "spi_grouped", "mean_grp", "rolling_sum", "rolling_sum_f64", "mktrend", "zonal_mean"],
+    "int32": ["whits_sg_p", "whitsvc_p", "whitswcv", "spi", "mean_grp", "rolling_sum", "autocorr", "zonal_mean_lazy_zones"],
+}
+
+
 def plan(tier, seed):
     q = tier == "quick"
     specs = []
     groups = [ALL_OPS[i::6] for i in range(6)]
     for i, g in enumerate(groups):
         specs.append({"kind": "sweep", "sub": i, "ops": g, "configs_per_op": 5 if q else 60, "schedulers": ["synchronous", 1, 2, 16], "budget_s": 240 if q else 600})
+    # other stored dtypes: float64 reaches the float64[:] gufuncs without a casting copy, so the kernel sees the real strides
+    # of every dimension order; only the operations whose kernels accept the dtype are swept
+    for j, (dt, names) in enumerate(OPS_BY_DTYPE.items()):
+        for h in range(2):
+            specs.append({"kind": "sweep", "sub": 10 + 2 * j + h, "cube_dtype": dt, "ops": names[h::2], "configs_per_op": 3 if q else 30, "schedulers": ["synchronous", 2], "budget_s": 240 if q else 600})
     specs.append({"kind": "pixels", "sub": 0, "ops": [o for o in ALL_OPS], "reps": 1 if q else 12})
     for layer in ("omp", "workqueue"):
         specs.append({"kind": "threads", "env": {"NUMBA_THREADING_LAYER": layer}, "threads": [2, 3, 8, 16] if q else list(range(2, 17)), "chunksizes": [0, 1, 3] if not q else [0, 1], "reps": 2 if q else 10})
@@ -542,7 +554,7 @@ def finalize(agg, tier):
     for n in ALL_OPS:
         if c.get(f"configs_{n}", 0) == 0:
             out.append(f"operation {n} never compared eager vs lazy")
-    for k in ("layout_pairs", "permutation_pairs", "pixel_alone_pairs", "thread_runs", "tyx_vs_gufunc_pixels", "race_rounds", "first_call_under_threads", "time_chunked_attempts", "layer_omp", "layer_workqueue"):
+    for k in ("layout_pairs", "permutation_pairs", "pixel_alone_pairs", "thread_runs", "tyx_vs_gufunc_pixels", "race_rounds", "first_call_under_threads", "time_chunked_attempts", "layer_omp", "layer_workqueue", "sweep_cube_float64", "sweep_cube_float32", "sweep_cube_int32"):
         if c.get(k, 0) == 0:
             out.append(f"monitor/class {k} never observed")
     if c.get("race_rounds_with_2plus_compilers", 0) == 0:
